@@ -165,3 +165,40 @@ Theorem apply_result_credits_owner s x p :
 Proof.
   intros Hk Hw Hp. unfold bump_counter, worker_pids. rewrite Hk, Hw, Hp. reflexivity.
 Qed.
+
+(* ------------------------------------------------------------ each cause resolves *)
+(* the worker's result for a cached, unresolved Apply job resolves it with exactly that
+   payload (success or the worker-made failure) *)
+Theorem result_resolves s j x (ok : bool) tag i :
+  0 <= j -> cached s j = Some x -> kind x = KApply -> ready x = false ->
+  exists y, get_job (fst (do_ready s j i (if ok then PValue tag else PExc tag))) j = Some y
+            /\ ready y = true /\ value y = Some (if ok then PValue tag else PExc tag).
+Proof.
+  intros Hj Hc Hk Hr. unfold do_ready. rewrite Hc. cbn [fst].
+  destruct (cached_get _ _ _ Hc) as [Hg _].
+  set (s1 := if ready x then bump_counter s x
+             else with_sem (bump_counter s x) (LaxSem.release (sem (bump_counter s x)))).
+  assert (Hg1 : get_job s1 j = Some x).
+  { unfold s1. rewrite Hr. unfold get_job in *. cbn [jobs with_sem].
+    rewrite (sj_bump_counter s x). exact Hg. }
+  exists (apply_set x (if ok then PValue tag else PExc tag)). split.
+  - unfold get_job, set_job. cbn [jobs]. replace (j <? 0) with false by lia.
+    unfold get_job in Hg1. replace (j <? 0) with false in Hg1 by lia.
+    rewrite (nth_upd_nth_same _ _ _ _ Hg1). unfold job_set. rewrite Hk. reflexivity.
+  - unfold apply_set. rewrite Hr. cbn. auto.
+Qed.
+
+(* a task that cannot be sent fails its own (cached, unresolved) Apply job *)
+Theorem put_failure_resolves s j x i k :
+  0 <= j -> cached s j = Some x -> kind x = KApply -> ready x = false ->
+  exists y, get_job (fst (fst (feed_tasks 1 i j k (Some k) false s))) j = Some y
+            /\ ready y = true /\ value y = Some PPutFailed.
+Proof.
+  intros Hj Hc Hk Hr. cbn [feed_tasks]. unfold okey_eqb, opt_eqb. rewrite Z.eqb_refl. rewrite Hc. cbn [fst].
+  destruct (cached_get _ _ _ Hc) as [Hg _].
+  exists (apply_set x PPutFailed). split.
+  - unfold get_job, set_job. cbn [jobs]. replace (j <? 0) with false by lia.
+    unfold get_job in Hg. replace (j <? 0) with false in Hg by lia.
+    rewrite (nth_upd_nth_same _ _ _ _ Hg). unfold job_set. rewrite Hk. reflexivity.
+  - unfold apply_set. rewrite Hr. cbn. auto.
+Qed.
